@@ -20,7 +20,7 @@ import sys
 
 REPO = os.environ.get("VERIF_REPO", "/repo")
 HERE = os.path.dirname(os.path.abspath(__file__))
-OUT = os.path.join(os.path.dirname(HERE), "lean", "BtcHd", "Generated", "Code.lean")
+OUT = os.path.join(os.environ.get("VERIF_LEAN_DIR") or os.path.join(os.path.dirname(HERE), "lean"), "BtcHd", "Generated", "Code.lean")
 
 # (python file, qualified function, lean name, args [(name, lean type)], return lean type, options)
 TARGETS = [
@@ -80,6 +80,36 @@ TARGETS = [
     ("script.py", "Script.parse", "script_parse", [("s", "Bytes")], "Option (List Script.Cmd × Bytes)",
      {"option": True, "stream": "s", "cmd_list": "cmds", "while_fuel": "(s).length + 1", "lists": ["current"],
       "ctor_returns": "cls"}),
+    # ---- sixth batch: address / WIF / script-template helpers (C05, C09)
+    ("helper.py", "h160_to_p2pkh_address", "h160_to_p2pkh_address", [("h160", "Bytes"), ("testnet", "Bool")],
+     "List Char", {"extra": [("hash256", "Bytes → Bytes")], "lists": ["prefix"]}),
+    ("helper.py", "h160_to_p2sh_address", "h160_to_p2sh_address", [("h160", "Bytes"), ("testnet", "Bool")],
+     "List Char", {"extra": [("hash256", "Bytes → Bytes")], "lists": ["prefix"]}),
+    ("helper.py", "h160_to_p2wpkh_address", "h160_to_p2wpkh_address",
+     [("h160", "Bytes"), ("testnet", "Bool"), ("witver", "Nat")], "Option (List Char)",
+     {"option": True, "strings": ["hrp"]}),
+    ("helper.py", "h256_to_p2wsh_address", "h256_to_p2wsh_address",
+     [("h256", "Bytes"), ("testnet", "Bool"), ("witver", "Nat")], "Option (List Char)",
+     {"option": True, "strings": ["hrp"]}),
+    ("keys.py", "PrivateKey.wif", "private_key_wif", [("secret", "Bytes"), ("compressed", "Bool"), ("testnet", "Bool")],
+     "List Char", {"extra": [("hash256", "Bytes → Bytes")], "lists": ["prefix", "suffix"], "bytes_self": "secret",
+                   "self_attrs": {"_": "_"}}),
+    ("script.py", "p2pkh_script", "p2pkh_script", [("h160", "Bytes")], "List Script.Cmd", {"script_ctor": True}),
+    ("script.py", "p2sh_script", "p2sh_script", [("h160", "Bytes")], "List Script.Cmd", {"script_ctor": True}),
+    ("script.py", "p2wpkh_script", "p2wpkh_script", [("h160", "Bytes")], "List Script.Cmd", {"script_ctor": True}),
+    ("script.py", "p2wsh_script", "p2wsh_script", [("h256", "Bytes")], "List Script.Cmd", {"script_ctor": True}),
+    # ---- fifth batch: the argument validators of the command line (C20)
+    ("__main__.py", "value_in_interval", "value_in_interval",
+     [("value", "List Char"), ("min_", "Nat"), ("max_", "Nat"), ("name", "List Char")], "Option Int",
+     {"option": True, "retype": {"value": "value_int"}, "ints": ["value_int"], "strings": ["name"]}),
+    ("__main__.py", "address_index", "address_index", [("value", "List Char")], "Option Int",
+     {"option": True, "strings": ["name"]}),
+    ("__main__.py", "account_index", "account_index", [("value", "List Char")], "Option Int",
+     {"option": True, "strings": ["name"]}),
+    ("__main__.py", "extended_key", "extended_key_arg", [("value", "List Char")], "Option (List Char)", {"option": True}),
+    ("__main__.py", "mnemonic", "mnemonic_arg", [("value", "List Char")], "Option (List Char)", {"option": True}),
+    ("__main__.py", "bip39_seed", "bip39_seed_arg", [("value", "List Char")], "Option (List Char)", {"option": True}),
+    ("__main__.py", "entropy_hex", "entropy_hex_arg", [("value", "List Char")], "Option (List Char)", {"option": True}),
     ("bip39.py", "correct_entropy_bits_value", "correct_entropy_bits_value", [("entropy_bits", "Nat")],
      "Option Unit", {"option": True}),
     ("bip39.py", "mnemonic_from_entropy", "mnemonic_from_entropy", [("entropy", "List Char")],
@@ -128,6 +158,9 @@ class Fn:
         self.nat_subs = []
         self.bools = {a for a, t in args if t == "Bool"}
         self.declared = [set(a for a, _ in args)]
+        self.opts = opts
+        self.retype = opts.get("retype", {})
+        self.renamed = {}
         self.stream = opts.get("stream")
         self.self_attrs = opts.get("self_attrs", {})
         self.self_calls = opts.get("self_calls", {})
@@ -305,6 +338,16 @@ class Fn:
             return "((%s).%s (fun %s => decide %s))" % (self.iterable(g.iter), f.id, self.ident(g.target.id),
                                                        self.cond(e.args[0].elt))
         if isinstance(f, ast.Name):
+            if f.id == "bytes" and len(e.args) == 1 and isinstance(e.args[0], ast.Name) and e.args[0].id == "self" \
+                    and self.opts.get("bytes_self"):
+                return self.opts["bytes_self"]
+            if f.id == "Script" and self.opts.get("script_ctor") and len(e.args) == 1 and isinstance(e.args[0], ast.List):
+                items = []
+                for x in e.args[0].elts:
+                    t = self.expr(x)
+                    is_b = isinstance(x, ast.Name) and x.id in self.bytes_vars
+                    items.append("(Script.Cmd.data %s)" % t if is_b else "(Script.Cmd.op %s)" % t)
+                return "[" + ", ".join(items) + "]"
             if f.id == "len" and len(e.args) == 1:
                 return "(%s).length" % self.expr(e.args[0])
             if f.id == "ord" and len(e.args) == 1:
@@ -314,6 +357,10 @@ class Fn:
                 if isinstance(a, ast.BinOp) and isinstance(a.op, ast.Div):
                     # int(a / b): float division then truncation; exact for the guarded sizes, floor otherwise
                     return "(%s / %s)" % (self.expr(a.left), self.expr(a.right))
+                if isinstance(a, ast.Name) and a.id in self.retype and a.id not in self.renamed:
+                    if not self.option:
+                        raise Unsupported("int(text) in a total function")
+                    return "(← Cli.pyInt %s)" % self.expr(a)      # int() of arbitrary text: ValueError -> none
                 if isinstance(a, ast.Name) and a.id in self.strings or (
                         isinstance(a, ast.Subscript) and isinstance(a.value, ast.Name) and a.value.id in self.strings):
                     return "(Text.decVal %s)" % self.expr(a)
@@ -354,6 +401,9 @@ class Fn:
                     return "(← %s)" % txt
                 return txt
             raise Unsupported("call " + f.id)
+        if isinstance(f, ast.Attribute) and isinstance(f.value, ast.Name) and f.value.id == "bech32" and \
+                f.attr in KNOWN_FUNCS:
+            return self.call(ast.Call(func=ast.Name(id=f.attr, ctx=ast.Load()), args=e.args, keywords=e.keywords), bind)
         if isinstance(f, ast.Attribute):
             if f.attr == "from_bytes" and isinstance(f.value, ast.Name) and f.value.id == "int" and len(e.args) == 2 \
                     and isinstance(e.args[1], ast.Constant):
@@ -369,6 +419,10 @@ class Fn:
                 lean = KNOWN_FUNCS[f.attr]
                 txt = "(%s %s)" % (lean, " ".join(self.self_calls[f.attr] + [self.expr(a) for a in e.args]))
                 return "(← %s)" % txt if lean in OPTION_FUNCS else txt
+            if f.attr == "split" and len(e.args) == 1 and self.is_char(e.args[0]):
+                return "(Text.splitOn %s %s)" % (self.expr(e.args[0]), self.expr(f.value))
+            if f.attr == "strip" and not e.args:
+                return "(Text.strip %s)" % self.expr(f.value)        # ASCII white space (see Model/Text.lean)
             if f.attr == "rfind" and len(e.args) == 1 and self.is_char(e.args[0]):
                 return "(Py.rfind %s %s)" % (self.expr(f.value), self.expr(e.args[0]))      # Int, -1 when absent
             if f.attr in ("lower", "upper") and not e.args and isinstance(f.value, ast.Name) and f.value.id in self.strings:
@@ -475,6 +529,8 @@ class Fn:
 
     # ---------------------------------------------------------------- statements
     def ident(self, n):
+        if n in getattr(self, "renamed", {}):
+            return self.renamed[n]
         return {"from": "from_", "end": "end_", "at": "at_", "fun": "fun_", "show": "show_", "mod": "mod_",
                 "prefix": "prefix_"}.get(n, n)
 
@@ -611,6 +667,13 @@ class Fn:
                 (self.strings if isinstance(s.value.orelse, ast.Name) and s.value.orelse.id in self.strings
                  else self.lists).add(n)
             rhs = self.expr(s.value)
+            if n in self.retype and n not in self.renamed:
+                # the Python variable changes type here (str -> int): a fresh Lean variable takes over the name
+                new = self.retype[n]
+                self.renamed[n] = new
+                self.declared[-1].add(new)
+                self.strings.discard(n)
+                return [ind + "let mut %s := %s" % (new, rhs)]
             if self.is_declared(n):
                 return [ind + "%s := %s" % (self.ident(n), rhs)]
             self.declared[-1].add(n)
@@ -692,7 +755,7 @@ class Fn:
         if self.stream:
             assigned.add(self.stream)
         for a, _ in reversed(self.args):            # a parameter that the body re-assigns becomes a mutable local
-            if a in assigned:
+            if a in assigned and a not in self.retype:
                 body.insert(0, "  let mut %s := %s" % (self.ident(a), self.ident(a)))
         if self.rettype == "Option Unit":
             body.append("  return ()")
@@ -752,7 +815,7 @@ def translate_all():
         chunks.append("/-- translated from `%s` : `%s` -/\n%s" % (pyfile, qual, txt))
     hdr = ("-- GENERATED by harness/translate.py from /repo's working tree. Do not edit.\n"
            "import BtcHd.Model.Bech32\nimport BtcHd.Model.Text\nimport BtcHd.Model.Bip39\nimport BtcHd.Model.PyBuiltins\n"
-           "import BtcHd.Model.Script\nimport BtcHd.Generated.Misc\nimport BtcHd.Generated.Base58\n\n"
+           "import BtcHd.Model.Script\nimport BtcHd.Model.Cli\nimport BtcHd.Generated.Misc\nimport BtcHd.Generated.Base58\n\n"
            "set_option linter.unusedVariables false\n\n"
            "namespace BtcHd.Code\nopen BtcHd\n\n"
            "/-- what an untranslatable function becomes: an opaque value nothing can be proved equal to -/\n"
